@@ -13,7 +13,7 @@ import (
 
 // queries over foo{a=x,b=1}, foo{a=y,b=1}, bar{a=x}; constructs with an open known
 // finding (avg overflow, clamp with max<min, timestamp(), scalar() of an empty vector,
-// vector(time()), duplicate match signatures) and order-sensitive float algorithms
+// duplicate match signatures) and order-sensitive float algorithms
 // (avg, stddev: decided in exact-real mode under C04) are left out here.
 var verifRefQueries = []string{
 	`foo`,
@@ -62,10 +62,15 @@ var verifRefQueries = []string{
 	`1 + 2 * 3`,
 	`foo @ 100`,
 	`max(foo) by (a) > bool 0`,
+	`count(foo{a="x"}) + count(foo{a!="x", b="1"})`,
+	`sum(foo{b="1"}) - sum(foo{a=~"x|z", b="1"})`,
+	`vector(time())`,
+	`time() * 2 + foo`,
+	`pi() * time()`,
 }
 
 // quick tier: one or two shapes per operator family (indices into verifRefQueries)
-var verifRefQuick = []int{1, 3, 9, 13, 16, 25, 28, 31, 34, 35, 40, 44}
+var verifRefQuick = []int{1, 3, 9, 13, 16, 25, 28, 31, 34, 35, 40, 44, 46, 48, 50}
 
 func verifSameSample(site string, gl, wl labels.Labels, gt, wt int64, gv, wv float64) {
 	sym.Assert(site+"/labels", labels.Equal(gl, wl))
